@@ -79,12 +79,15 @@ Qed.
 
 (* the same through the whole frame: 50 leading bytes (encapsulation header with status 0, CPF
    items, reply service with the reply bit, general status) followed by the reply data *)
+Lemma no_additional_status_spec raw : no_additional_status raw = match nth_error raw 49 with Some b => b =? 0 | None => false end.
+Proof. unfold no_additional_status. rewrite slice1. now destruct (nth_error raw 49). Qed.
+
 Theorem multi_demux_frame hdr rs reqs : length hdr = 50%nat -> bytes_ok hdr = true ->
-  u32_at 8 hdr = Some 0 -> (exists s, nth_error hdr 46 = Some s /\ 128 <= s) ->
+  u32_at 8 hdr = Some 0 -> (exists s, nth_error hdr 46 = Some s /\ 128 <= s) -> nth_error hdr 49 = Some 0 ->
   rs <> [] -> multi_data_size rs < 65536 -> bytes_ok (multi_data rs) = true ->
   parse_multi reqs (hdr ++ multi_data rs) = (parse_unit (hdr ++ multi_data rs), zip_sub rs reqs).
 Proof.
-  intros Hl Hok He (s & Hs & Hs128) Hne Hsz Hokd.
+  intros Hl Hok He (s & Hs & Hs128) H49 Hne Hsz Hokd.
   set (raw := hdr ++ multi_data rs).
   assert (Hokr : bytes_ok raw = true) by (unfold raw; rewrite bytes_ok_app, Hok, Hokd; reflexivity).
   unfold parse_multi, parse_unit.
@@ -96,7 +99,8 @@ Proof.
   { unfold u32_at, byte_at in He |- *. unfold raw. rewrite !nth_error_app1 by lia. exact He. }
   rewrite H46, H48 in P5. replace (128 <=? s) with true in P5 by lia.
   destruct P5 as (Q1 & Q2 & Q3 & Q4). rewrite He' in P4, Q4. cbn [option_map is_none] in P4, Q4.
-  rewrite Q4, P4, Q3. cbn [orb negb opt_is].
+  assert (Hna : no_additional_status raw = true) by (rewrite no_additional_status_spec; unfold raw; rewrite nth_error_app1 by lia; now rewrite H49).
+  rewrite Q4, P4, Q3, Hna. cbn [orb negb opt_is].
   replace (skipn 50 raw) with (multi_data rs) by (unfold raw; rewrite <- Hl; now rewrite skipn_app_exact).
   pose proof (multi_demux rs Hne Hsz) as Hm.
   assert (Hcons : exists a q, multi_data rs = a :: q) by (unfold multi_data; rewrite le_enc2; cbn [app]; eauto).
@@ -234,9 +238,9 @@ Theorem multi_sub_words_of_valid reqs raw r subs i s : bytes_ok raw = true ->
 Proof.
   intros Hok Hp Hi Hv. unfold parse_multi in Hp.
   destruct (parse_cip_spec 46 48 50 raw Hok) as (_ & _ & _ & P4 & P5). fold (parse_unit raw) in P4, P5.
-  destruct (is_some (r_error (parse_unit raw)) || negb (opt_is (r_command_status (parse_unit raw)) SUCCESS)) eqn:Eg.
+  destruct (is_some (r_error (parse_unit raw)) || negb (opt_is (r_command_status (parse_unit raw)) SUCCESS) || negb (no_additional_status raw)) eqn:Eg.
   { injection Hp as <- <-. destruct i; discriminate. }
-  apply orb_false_iff in Eg as [_ Ecs]. apply negb_false_iff in Ecs.
+  apply orb_false_iff in Eg as [Eg _]. apply orb_false_iff in Eg as [_ Ecs]. apply negb_false_iff in Ecs.
   (* encapsulation status 0 *)
   assert (Hen : encap_status raw = Some 0).
   { unfold encap_status. rewrite P4 in Ecs. destruct (u32_at 8 raw) as [e|] eqn:Ee; [|discriminate].
